@@ -13,5 +13,6 @@ INVARIANT DivRefines
 INVARIANT QuantizeRefines
 INVARIANT RatioRefines
 INVARIANT UnaryRefines
+INVARIANT IntoIntRefines
 INVARIANT Tight
 CHECK_DEADLOCK FALSE
